@@ -230,7 +230,9 @@ func kauriProp(c kauriCase) common.Result {
 			if valid && c.Scheme == "bls12" && kit.QuirkSig(cfg, me.Base, sig, msgBytes) {
 				return common.Fail(kit.KnownBLS, "the tree node's scheme rejects a valid BLS contribution although its signature satisfies the verification equation in other arrangements\n%s", desc)
 			}
-			if valid && !timerFired {
+			// the wait timer ends the round of an inner node (it has forwarded what it had); the root has nobody to forward
+			// to: the votes it holds and the ones still arriving keep counting
+			if valid && (!timerFired || id == tr.Root()) {
 				for s := range set {
 					validSeen[s] = true
 				}
@@ -273,7 +275,7 @@ func kauriProp(c kauriCase) common.Result {
 					validSeen[s] = true
 				}
 			}
-			if (!valid || len(agg) < q) && !timerFired && len(qcs) != qcBefore && len(agg) < q {
+			if (!valid || len(agg) < q) && (!timerFired || id == tr.Root()) && len(qcs) != qcBefore && len(agg) < q {
 				return common.Fail("kauri-qc-before-quorum", "a certificate was announced although the merged valid votes are only %v\n%s", keysOf(agg), desc)
 			}
 		}
